@@ -133,6 +133,15 @@ def run_leg(rep, d: Path, quick: bool, rnd) -> None:
     distinct = {tuple(sorted(s)) for s in fam}
     if len(pred) != len(distinct) * len(ROOTS):
         raise tlc.TlcFailure(f"TemplateLoader.tla emitted {len(pred)} cases, expected {len(distinct) * len(ROOTS)}")
+    # ---- every look-up order (confluence of the walk): SpecAny on a few override sets - all orders of all look-ups, T1-T3 in every state
+    anysets = [["property_templates/property_macros.py.jinja"]] + ([] if quick else [["helpers.jinja", "model.py.jinja"], ["endpoint_macros.py.jinja"], sorted(rnd.sample(names, 4))])
+    g2 = dict(graph, overrides=anysets)
+    (d / "tplgraph-any.json").write_text(json.dumps(g2))
+    acfg = tlc.write_cfg(d / "tplany.cfg", {}, ["TypeOK", "T1", "T2", "T3"], spec="SpecAny")
+    ares = tlc.run_tlc("TemplateLoader.tla", acfg, env={"TPL_GRAPH": str(d / "tplgraph-any.json")}, timeout=1500)
+    rep.tlc(ares)
+    if ares.violated:
+        raise tlc.TlcFailure(f"TemplateLoader.tla: the walk is not confluent / a law fails in some look-up order: {ares.violated}\n{ares.counterexample[:1200]}")
     # ---- real generations: one per override set (+ the baseline without a custom directory), setup flavour so that every file class exists
     jobs = [(None, str(d / "tpl-base"), "setup")] + [(list(s), str(d / f"tpl-{i}"), "setup") for i, s in enumerate(sorted(distinct))]
     with mp.get_context("fork").Pool(max(1, NCPU - 2)) as pool:
@@ -205,4 +214,4 @@ def run_leg(rep, d: Path, quick: bool, rnd) -> None:
         _, p2 = run_trace([bad], "tplself.ndjson")
         if p2["confined"] != [0]:
             raise tlc.TlcFailure("TemplateLoaderTrace accepted a corrupted observation (binding self-test)")
-    rep.extra["template_loader"] = {"templates": len(names), "override_sets": len(distinct), "cases": len(pred), "edges": sum(len(v) for v in graph["deps"].values())}
+    rep.extra["template_loader"] = {"templates": len(names), "override_sets": len(distinct), "cases": len(pred), "edges": sum(len(v) for v in graph["deps"].values()), "all_orders_states": ares.distinct}
